@@ -39,10 +39,22 @@ func (f *Listx) Call(s *slip.Scope, args slip.List, depth int) (result slip.Obje
 	case 1:
 		result = args[0]
 	default:
-		list := make(slip.List, len(args))
-		copy(list, args)
-		list[len(list)-1] = slip.Tail{Value: list[len(list)-1]}
-		result = list
+		// The last argument is the cdr of the list built from the others.
+		switch last := args[len(args)-1].(type) {
+		case nil:
+			list := make(slip.List, len(args)-1)
+			copy(list, args)
+			result = list
+		case slip.List:
+			list := make(slip.List, 0, len(args)-1+len(last))
+			list = append(list, args[:len(args)-1]...)
+			result = append(list, last...)
+		default:
+			list := make(slip.List, len(args))
+			copy(list, args)
+			list[len(list)-1] = slip.Tail{Value: last}
+			result = list
+		}
 	}
 	return
 }
